@@ -378,6 +378,8 @@ func Run(c *hx.Ctx) {
 			}
 		}
 	}
+	// overlapping ResetStream / DestroyStream calls on one real BaseStream, every interleaving (once.go)
+	runOnce(c)
 	// concurrent phase (support): books equal the truth again once concurrent leases, resets and closes have settled
 	for i := 0; i < c.N(6, 40); i++ {
 		k := kinds[i%2]
